@@ -49,6 +49,24 @@ def _private_copies():
     LEAN = os.path.join(base, "lean")
     OUT = os.path.join(base, "out")
     os.makedirs(OUT, exist_ok=True)
+    # private copies are 0.7-0.9 GB each: drop those of other trees that were not used for 90 minutes (130 stale copies
+    # once filled the disk and turned running checks into spurious build failures)
+    try:
+        open(os.path.join(base, ".lastuse"), "w").write(str(time.time()))
+        root = os.path.dirname(base)
+        for d in os.listdir(root):
+            q = os.path.join(root, d)
+            if q == base or not os.path.isdir(q):
+                continue
+            try:
+                last = os.path.getmtime(os.path.join(q, ".lastuse"))
+            except OSError:
+                last = os.path.getmtime(q)
+            if time.time() - last > 5400:
+                import shutil
+                shutil.rmtree(q, ignore_errors=True)
+    except OSError:
+        pass
 
 STD_AXIOMS = {"propext", "Classical.choice", "Quot.sound"}
 FORBIDDEN = re.compile(r"\bsorry\b|\badmit\b|^\s*axiom\s|native_decide|bv_decide|implemented_by|\bunsafe\s|maxHeartbeats\s+0\b")
